@@ -1,6 +1,8 @@
 package main
 
 import (
+	"unicode/utf8"
+	"math"
 	"encoding/json"
 	"fmt"
 	"sort"
@@ -304,10 +306,27 @@ func (f forwarder) Format(s fmt.State, verb rune) {
 type namedInt int
 type namedStr string
 
+type (
+	namedF32  float32
+	namedF64  float64
+	namedC64  complex64
+	namedBS   []byte
+)
+
+// c14Operands: every basic kind with its zero value, its extremes and a value whose shortest rendering depends on
+// the kind's own width (0.1 as float32 is not 0.1 as float64), plus named types of the kinds and a few composites.
 var c14Operands = []interface{}{true, int(-42), int8(7), uint16(300), uint64(1 << 40), uintptr(0xbeef), float32(2.5), float64(-1234.5678), complex64(1 + 2i), complex128(-3.5 + 0.25i), "héllo w", []byte("by\xfftes"), rune('x'), namedInt(5), namedStr("nm"), nil, []int{1, 2}, struct {
 	A int
 	B string
-}{1, "z"}, map[string]int{"k": 1}}
+}{1, "z"}, map[string]int{"k": 1},
+	false, int(0), int64(math.MinInt64), int64(math.MaxInt64), int8(-128), int16(-1), int32(1 << 30), uint(0), uint8(255), uint32(math.MaxUint32), uint64(math.MaxUint64), uintptr(0),
+	float32(0.1), float32(3.14), float32(-1e-7), float32(math.MaxFloat32), float32(math.SmallestNonzeroFloat32), float32(0), float32(math.Inf(1)),
+	float64(0.1), float64(0), math.Copysign(0, -1), math.NaN(), math.Inf(-1), math.MaxFloat64, math.SmallestNonzeroFloat64, 1e21, 1e20, 123456789.0,
+	complex64(complex(0.1, -0.3)), complex128(complex(0.1, math.Inf(1))), complex64(0),
+	"", "a" + mStart + "b" + mEnd, "l1\nl2", "\xe2\x80", rune(0x10ffff), rune(-1), []byte{}, []byte(nil), [3]byte{1, 2, 3},
+	namedF32(0.1), namedF64(0.1), namedC64(complex(0.1, 2)), namedBool(true), namedU8(200), namedBS("nb"), namedInt(0), namedStr(""),
+	(*int)(nil), []interface{}{float32(0.1), nil, "s"}, [2]float32{0.1, 0.2}, map[float32]bool{0.1: true}, struct{ F float32 }{0.1}, &struct{ F float32 }{0.1},
+}
 
 func c14Wrappers(d Directive, vi int) string {
 	switch d.Verb {
@@ -330,9 +349,23 @@ func c14Wrappers(d Directive, vi int) string {
 	if got := fmt.Sprintf(f, mk(redact.Safe(redact.Unsafe(x)))...); got != want {
 		return fmt.Sprintf("fmt.Sprintf(%s, Safe(Unsafe(%#v))) = %q, direct %q", d, x, got, want)
 	}
+	if d.Verb == 'v' && d.Flags == 0 && d.Wid == 0 && d.Prec == 0 {
+		// the implicit %v of Sprint/Sprintln (with and without a neighbour: operand spacing looks at the operand type)
+		for _, wr := range []interface{}{redact.Safe(x), redact.Unsafe(x), forwarder{x}} {
+			if got, want := fmt.Sprint(wr), fmt.Sprint(x); got != want {
+				return fmt.Sprintf("fmt.Sprint(%T(%#v)) = %q, direct %q", wr, x, got, want)
+			}
+			if got, want := fmt.Sprintln("a", wr, 1), fmt.Sprintln("a", x, 1); got != want {
+				return fmt.Sprintf("fmt.Sprintln(\"a\", %T(%#v), 1) = %q, direct %q", wr, x, got, want)
+			}
+		}
+	}
 	// under redact's own printer: forwarding prints like the direct call (markers aside)
 	rw := redact.Sprintf(f, mk(x)...).StripMarkers()
 	if got := redact.Sprintf(f, mk(forwarder{x})...).StripMarkers(); got != rw {
+		if !utf8.ValidString(rw) && strings.Replace(got, "?", "", -1) == strings.Replace(rw, "?", "", -1) {
+			return "" // ill-formed UTF-8: the '?' guards after dangling bytes depend on envelope boundaries (outside the claim)
+		}
 		return fmt.Sprintf("redact.Sprintf(%s, forwarder(%#v)) = %q, direct %q", d, x, got, rw)
 	}
 	return ""
